@@ -216,26 +216,40 @@ Send(batch) ==
 (* Sync: the reloader has drained its cache messages and dequeued every     *)
 (* batch sent so far (handle_events), in static mode running a pass after   *)
 (* each batch.                                                              *)
-RECURSIVE TakeAll(_, _, _, _, _, _, _)
-TakeAll(q, E, g, tr, hd, flag, oflag) ==
+RECURSIVE TakeAll(_, _, _, _, _, _, _, _)
+TakeAll(q, E, g, tr, hd, flag, oflag, vv) ==
     IF q = <<>> THEN [E |-> E, g |-> g, tr |-> tr, hd |-> hd, d8 |-> flag, od |-> oflag]
     ELSE LET dm == DrainMsgs(E.msgs, g, tr)
              E1 == [E EXCEPT !.msgs = <<>>]
              known == {e \in Head(q) : e \in DOMAIN dm.g}
              tr1 == dm.tr \cup known
-             hd1 == [e \in DOMAIN hd |-> IF e \in known THEN ver[e] ELSE hd[e]]
+             hd1 == [e \in DOMAIN hd |-> IF e \in known THEN vv[e] ELSE hd[e]]
          IN IF mode = "static"
-            THEN LET p == RunPass(E1, dm.g, tr1) IN TakeAll(Tail(q), p.E, p.g, {}, hd1, flag \/ p.d8, oflag \/ p.od)
-            ELSE TakeAll(Tail(q), E1, dm.g, tr1, hd1, flag, oflag)
+            THEN LET p == RunPass(E1, dm.g, tr1) IN TakeAll(Tail(q), p.E, p.g, {}, hd1, flag \/ p.d8, oflag \/ p.od, vv)
+            ELSE TakeAll(Tail(q), E1, dm.g, tr1, hd1, flag, oflag, vv)
 
-SyncFrom(q) ==
+SyncFromEnv(E0, vv, q) ==
     /\ HasReloader
-    /\ LET t  == TakeAll(q, env, graph, toReload, handled, d8, od)
+    /\ LET t  == TakeAll(q, E0, graph, toReload, handled, d8, od, vv)
            dm == DrainMsgs(t.E.msgs, t.g, t.tr) IN
         /\ env' = [t.E EXCEPT !.msgs = <<>>]
         /\ graph' = dm.g /\ toReload' = dm.tr /\ handled' = t.hd /\ d8' = t.d8 /\ od' = t.od
     /\ evq' = <<>>
-    /\ UNCHANGED <<mode, ver>>
+    /\ UNCHANGED mode
+
+SyncFrom(q) == SyncFromEnv(env, ver, q) /\ UNCHANGED ver
+
+(* What a real file system does: an edit is notified by the watcher at once -- the *)
+(* file itself, and its directory when the file appears or disappears.             *)
+EditNotify(f, c) ==
+    /\ env.src[f] # c /\ evq = <<>>
+    /\ LET v1 == [ver EXCEPT ![FileE(f[1], f[2])] = @ + 1]
+           flips == (env.src[f] = None) # (c = None)
+           v2 == IF flips THEN BumpDirs(v1, f[1]) ELSE v1
+           batch == {FileE(f[1], f[2])} \cup (IF flips THEN {DirE(Parent[f[1]])} ELSE {}) IN
+        /\ ver' = v2
+        /\ SyncFromEnv([env EXCEPT !.src[f] = c], v2, <<batch>>)
+    /\ last' = [op |-> "editn", id |-> f[1], ext |-> f[2], c |-> c, flips |-> (env.src[f] = None) # (c = None)]
 
 Sync == SyncFrom(evq) /\ last' = [op |-> "sync"]
 
